@@ -3,7 +3,9 @@ CFG = {'assumptions': ['f64 inputs cross the boundary as bit patterns and are de
                  'IEEE-754',
                  'coordinates are finite and far from overflow/underflow (|c| < 2^52, no subnormals)'],
  'count': {'quick': 30000, 'thorough': 1200000},
- 'lean_files': ['GeoModel/Centroid.lean',
+ 'translator': True,
+ 'lean_files': ['GeoModel/TRANPrelude.lean', 'GeoModel/Gen/CentroidGen.lean', 'GeoProofs/Lemmas/TRAN2Centroid.lean',
+                'GeoModel/Centroid.lean',
                 'GeoModel/Ops/C06.lean',
                 'GeoProofs/Lemmas/C06PEquiv.lean',
                 'GeoProofs/Lemmas/C06PPoly.lean',
@@ -21,7 +23,14 @@ CFG = {'assumptions': ['f64 inputs cross the boundary as bit patterns and are de
          'coordinate systems (small grid; grid + integer offset up to 1.2e11 and power-of-two scale; jittered '
          'non-dyadic floats with offsets up to 1e8), plus metamorphic pairs (g, 2^e*g+d); distinct by input text; '
          'cases tagged triv (empty geometry) are not counted',
- 'trusted_base': ['segment lengths in the executable model are exact rationals for axis-aligned/Pythagorean segments '
+ 'trusted_base': ['translator/rs2lean.py + rsexpr.py + jobs2.py for the accumulator of centroid.rs (explicit choices: Dimensions = its '
+                  'declaration rank as a Nat; Euclidean.length(line) = the parameter len of the model; self.0 : Option<WeightedCentroid> '
+                  'is the state, a &mut self method is a function of it; Option::as_ref / as_mut = the option; LineString::lines() = '
+                  'windows(2); ring[0] / ring.0[0] in add_ring = total indexing (the guards are semantic, a panic would be seen by the '
+                  'harness); Rect::centroid / unsigned_area = the regenerated Rect::center / width * height of geo-types; unreachable! '
+                  'arms leave the state unchanged; exact rationals). Not regenerated: add_triangle (match guard), add_geometry and the '
+                  'collection loops (recursion through the Geometry enum), the per-type Centroid impls that wrap the operation',
+                  'segment lengths in the executable model are exact rationals for axis-aligned/Pythagorean segments '
                   'and otherwise midpoints of 2^-80-relative enclosures of the square root (the theorems quantify '
                   'over an arbitrary length function with the stated hypotheses)',
                   'numeric comparison within tol = 16*2^-53*(n+2)*kw*kr*(M+D) (n coordinates, M max |coord|, D bbox '
@@ -36,7 +45,11 @@ MANIFEST = {'note': 'Trusted: Lean 4.33 kernel (axioms propext, Classical.choice
          'abstract function; f64 rounding is covered only by the tolerance of the correspondence, not by proof.',
  'technique': 'Lean 4 proof (invariant of the accumulator fold, structural induction on the geometry tree) + '
               'model/implementation correspondence on random geometry trees',
- 'text': 'Proved for the model (GeoProofs/Props/C06.lean): folding add_assign over any list of contributions keeps '
+ 'text': 'Translator tie (TRAN2, centroidOperation_eq_source, no hypothesis): the Coord operators, WeightedCentroid::{add_assign, sub_assign} '
+         'and CentroidOperation::{centroid, centroid_dimensions, add_weighted_centroid, add_centroid, add_coord, add_line, add_line_string, '
+         'add_multi_line_string, add_multi_point, add_ring, add_rect, add_polygon} and Line::centroid of the model equal the terms regenerated '
+         'from centroid.rs (and coord.rs, dimensions.rs, area.rs) on this run (GeoModel/Gen/CentroidGen.lean). '
+         'Proved for the model (GeoProofs/Props/C06.lean): folding add_assign over any list of contributions keeps '
          'exactly the contributions of maximal dimension, summed (fold_dominance); every add_* method including its '
          'early returns and the sub-operations of add_polygon is that fold over a state-independent contribution '
          'list, for every nesting (addGeom_is_fold, addGeom_dominant); centroid is None exactly for empty geometries '
